@@ -85,7 +85,7 @@ def avg_case(args):
     return {'seed': seed, 'progs': progs, 'shared': shared, 'runs': out}
 
 
-def throttle_case(seed):
+def throttle_case(seed, frac_count=None):
     """one arrival pattern through the real decorator with a virtual clock"""
     import diskcache
     from impl import Env, scratch_root
@@ -94,6 +94,8 @@ def throttle_case(seed):
     count = rng.choice([1, 2, 4, 8])
     seconds = rng.choice([1, 2, 4])
     tick = Fraction(1, count)
+    if frac_count is not None:
+        count, tick = frac_count, Fraction(1, 4)
     clock = [Fraction(rng.randint(0, 50) * 16)]
     attempts = []
     starts = []
@@ -104,15 +106,23 @@ def throttle_case(seed):
             attempts.append(clock[0])
         return float(clock[0])
 
+    sleeps = [0]
+
+    class NeverLetThrough(Exception):
+        pass
+
     def sleep_func(x):
         clock[0] += Fraction(x)
+        sleeps[0] += 1
+        if sleeps[0] > 2000:
+            raise NeverLetThrough()
     d = tempfile.mkdtemp(prefix='thr-', dir=scratch_root())
     env.rec.enabled = False
     try:
         c = diskcache.Cache(d)
         start = clock[0]
 
-        @diskcache.throttle(c, count, seconds, name='thr', time_func=time_func, sleep_func=sleep_func)
+        @diskcache.throttle(c, float(count) if frac_count is not None else count, seconds, name='thr', time_func=time_func, sleep_func=sleep_func)
         def f():
             starts.append(clock[0])
         n_calls = rng.randint(3, 25)
@@ -121,7 +131,12 @@ def throttle_case(seed):
             t += rng.choice([0, 0, 0, 1, 1, 2, 5, 9, 40]) * tick
             clock[0] = max(clock[0], t)
             state['in_wrapper'] = True
-            f()
+            sleeps[0] = 0
+            try:
+                f()
+            except NeverLetThrough:
+                state['in_wrapper'] = False
+                break
             state['in_wrapper'] = False
         c.close()
     finally:
@@ -233,6 +248,29 @@ def run(tier, seed, rng, known, replay):
                                           'attempt_ticks': [int(a * cnt) for a in t['attempts']], 'start_ticks': [int(s * cnt) for s in starts],
                                           'model': ans, 'acceptor': why},
                                'found_input': 'differ from DC.Recipes' not in why, 'what': why})
+    # counts that are not whole numbers (legal: count is only ever used in arithmetic): outside the integer bucket
+    # of the Lean model, judged by the statement alone - every call is eventually let through, and any window
+    # holding two or more starts respects count + rate * w
+    frac_cases = 0
+    for fc in (Fraction(1, 2), Fraction(1, 4), Fraction(3, 2), Fraction(5, 2)):
+        for _ in range(6 if tier == 'quick' else 60):
+            t = throttle_case(rng.getrandbits(48), frac_count=fc)
+            frac_cases += 1
+            starts, sec = list(t['starts']), t['seconds']
+            why = None
+            if len(starts) != t['calls']:
+                why = 'throttle(count=%s, seconds=%d): only %d of %d calls were let through (a call was still waiting after 2000 sleeps)' % (
+                    float(fc), sec, len(starts), t['calls'])
+            rate = fc / sec
+            for i in range(len(starts)):
+                for j in range(i + 1, len(starts)):
+                    w = starts[j] - starts[i]
+                    if (j - i + 1) > max(fc, 1) + rate * w + Fraction(1, 10 ** 6):     # float rounding of non-dyadic rates is not the subject
+                        why = 'throttle(count=%s, seconds=%d) let %d calls start within %s s: more than max(count, 1) + rate*w = %s' % (
+                            float(fc), sec, j - i + 1, w, max(fc, 1) + rate * w)
+            if why and len(violations) < 3:
+                violations.append({'replay': {'property': 'C20', 'kind': 'throttle-fractional', 'case_seed': t['seed'], 'count': float(fc), 'seconds': sec,
+                                              'acceptor': why}, 'found_input': True, 'what': why})
     return {
         'evaluations': avg_runs + len(tcases), 'distinct_nontrivial': len(set(lines)) + len(set(tlines)),
         'rule': 'Averager: 2-3 adders/poppers x 1-3 events each, own or shared Cache objects, seeded schedules at action granularity; throttle: seeded arrival '
